@@ -236,6 +236,7 @@ func nestedUnionFirst(s ast.Statement, alone string) bool {
 }
 
 func runC07(w *W) {
+	c07UnionCorrespondence(w) // union regrouping: Lean model DC.Model.UnionGroup vs the real printer (p_c07union.go)
 	stmts, _ := loadCorpus()
 	st := &c07State{w: w}
 	for _, h := range historyPool {
